@@ -65,18 +65,18 @@ func (k *kase) line() string {
 }
 
 type harness struct {
-	rep      *vh.Report
-	r        *vh.Rng
-	active   map[string]vh.Finding // predicate -> finding (from the file, or synthetic for -assume-known)
-	queue    []*kase
-	cases    []vh.Case
-	failing  []*kase // kases behind the first failures (for shrinking)
-	failSig  []string
-	knownC   map[string]int
-	nfail    int
-	fatal    int
-	mutR     *vh.Rng
-	muts     []mutItem
+	rep     *vh.Report
+	r       *vh.Rng
+	active  map[string]vh.Finding // predicate -> finding (from the file, or synthetic for -assume-known)
+	queue   []*kase
+	cases   []vh.Case
+	failing []*kase // kases behind the first failures (for shrinking)
+	failSig []string
+	knownC  map[string]int
+	nfail   int
+	fatal   int
+	mutR    *vh.Rng
+	muts    []mutItem
 }
 
 func isPrefixOf(a, b []string) bool {
